@@ -131,15 +131,23 @@ func (k *Case) addCSRName(s string) {
 
 func genCase(r *c.Rng) *Case {
 	k := &Case{Key: "ec"}
+	if r.Chance(1, 2) {
+		k.Auth = r.Intn(len(authClaims))
+	}
 	switch r.Intn(20) {
 	case 0, 1, 2:
 		k.Prov = "jwktpl"
 	case 3:
-		k.Prov = "jwkdis"
+		k.Prov = c.Pick(r, []string{"jwkdis", "jwkdis", "jwkc1", "jwkc2", "jwkc3", "jwkc4", "jwkc5"})
 	case 4, 5, 6, 7:
 		k.Prov = "x5c"
-	case 8, 9, 10:
+	case 8, 9:
 		k.Prov = "oidc"
+	case 10, 11, 12:
+		k.Prov = "nebula"
+		k.NebHost = r.Intn(len(nebSpecs))
+	case 13:
+		k.Prov = "k8ssa"
 	default:
 		k.Prov = "jwk"
 	}
@@ -163,6 +171,27 @@ func genCase(r *c.Rng) *Case {
 	default:
 		k.Sub = c.Pick(r, subPool)
 	}
+	if k.Prov == "nebula" {
+		sp := nebSpecs[k.NebHost]
+		creds := []string{sp.name}
+		for _, cidr := range sp.ips {
+			creds = append(creds, strings.Split(cidr, "/")[0])
+		}
+		switch r.Intn(6) {
+		case 0, 1, 2: // no sans claim: the certificate's own names
+			k.SANs, k.NoSANs = nil, r.Chance(1, 2)
+		case 3: // the certificate's names, listed
+			k.SANs, k.NoSANs = creds, false
+		case 4: // a subset
+			k.SANs, k.NoSANs = creds[:1], false
+		default: // foreign names (kept from the generic generator) - see the known finding
+			k.NoSANs = false
+		}
+		if r.Chance(3, 4) {
+			k.Sub = sp.name
+		}
+		k.Cnf = ""
+	}
 	if k.Prov == "oidc" {
 		k.Sub = c.Pick(r, []string{"1234567890", "sub with space", "a@example.com", "frag#ment", "ünï", "%41"})
 		if r.Chance(5, 6) {
@@ -184,6 +213,16 @@ func genCase(r *c.Rng) *Case {
 		auth = nil
 		if k.Email != "" {
 			auth = append(auth, k.Email)
+		}
+	}
+	if k.Prov == "nebula" { // the CSR is validated against the Nebula certificate, not the token
+		sp := nebSpecs[k.NebHost]
+		auth = []string{sp.name}
+		for _, cidr := range sp.ips {
+			auth = append(auth, strings.Split(cidr, "/")[0])
+		}
+		if r.Chance(1, 3) {
+			auth = auth[:1+r.Intn(len(auth))]
 		}
 	}
 	// CSR names: a mutation of the authorized list
@@ -328,6 +367,18 @@ func corner() []*Case {
 		{Prov: "jwktpl", Sub: "svc", SANs: []string{"a.example.com"}, HasUExt: true, UExt: []ExtJ{{OID: 1, Val: []byte{4, 1, 1}}, forged[0], {OID: 2, Val: []byte{4, 1, 2}}}, Key: "ec"},
 		{Prov: "jwktpl", Sub: "svc", SANs: []string{"a.example.com"}, HasUExt: true, UExt: []ExtJ{forged[0], forged[0]}, Key: "ec"},
 		{Prov: "jwktpl", Sub: "svc", SANs: []string{"a.example.com"}, Key: "ec"},
+		// claims: authority level x provisioner level
+		{Auth: 1, Prov: "jwk", Sub: "svc", SANs: []string{"a.example.com"}, Key: "ec"},
+		{Auth: 2, Prov: "jwk", Sub: "svc", SANs: []string{"a.example.com"}, Key: "ec"},
+		{Auth: 2, Prov: "jwkc1", Sub: "svc", SANs: []string{"a.example.com"}, Key: "ec"},
+		{Auth: 3, Prov: "jwk", Sub: "svc", SANs: []string{"a.example.com"}, Key: "ec"},
+		{Auth: 3, Prov: "x5c", Sub: "svc", SANs: []string{"a.example.com"}, Key: "ec"},
+		{Auth: 3, Prov: "oidc", Sub: "1234", Email: "a@example.com", Key: "ec"},
+		{Auth: 4, Prov: "jwkc2", Sub: "svc", SANs: []string{"a.example.com"}, Key: "ec"},
+		{Auth: 7, Prov: "jwkc3", Sub: "svc", SANs: []string{"a.example.com"}, Key: "ec"},
+		{Auth: 2, Prov: "jwktpl", Sub: "svc", SANs: []string{"a.example.com"}, HasUExt: true, UExt: forged, Key: "ec"},
+		{Auth: 1, Prov: "jwkc4", Sub: "svc", SANs: []string{"a.example.com"}, Key: "ec"},
+		{Auth: 6, Prov: "jwkc5", Sub: "svc", SANs: []string{"a.example.com"}, Key: "ec"},
 		// fingerprint
 		{Prov: "jwk", Sub: "svc", SANs: []string{"a.example.com"}, Cnf: "ok", Key: "ec"},
 		{Prov: "jwk", Sub: "svc", SANs: []string{"a.example.com"}, Cnf: "bad", Key: "ec"},
@@ -337,6 +388,20 @@ func corner() []*Case {
 		{Prov: "oidc", Sub: "1234", Email: "", DNS: []string{"evil.example.com"}, Key: "ec"},
 		{Prov: "oidc", Sub: "1234", Email: adminEmail, CN: "srv", DNS: []string{"srv.example.com"}, IPs: []string{"10.0.0.9"}, Key: "ec"},
 		{Prov: "oidc", Sub: "1234", Email: "Admin@example.com", CN: "srv", DNS: []string{"srv.example.com"}, Key: "ec"},
+		// Nebula
+		{Prov: "nebula", NebHost: 0, Sub: "host-a.neb", NoSANs: true, CN: "host-a.neb", DNS: []string{"host-a.neb"}, IPs: []string{"10.1.1.7"}, Key: "ec"},
+		{Prov: "nebula", NebHost: 0, Sub: "host-a.neb", NoSANs: true, Key: "ec"},
+		{Prov: "nebula", NebHost: 0, Sub: "host-a.neb", NoSANs: true, DNS: []string{"host-a.neb", "evil.example.com"}, Key: "ec"},
+		{Prov: "nebula", NebHost: 0, Sub: "host-a.neb", NoSANs: true, IPs: []string{"10.1.1.8"}, Key: "ec"},
+		{Prov: "nebula", NebHost: 1, Sub: "a@neb.example", NoSANs: true, Emails: []string{"a@neb.example"}, IPs: []string{"10.1.2.8"}, Key: "ec"},
+		{Prov: "nebula", NebHost: 2, Sub: "10.1.1.9", NoSANs: true, IPs: []string{"10.1.1.9"}, Key: "ec"},
+		{Prov: "nebula", NebHost: 0, Sub: "evil", SANs: []string{"evil.example.com", "8.8.8.8"}, Key: "ec"},
+		{Prov: "nebula", NebHost: 0, Sub: "evil.example.com", SANs: []string{"evil.example.com"}, CN: "evil.example.com", Key: "ec"},
+		{Prov: "nebula", NebHost: 0, Sub: "host-a.neb", SANs: []string{"evil.example.com"}, DNS: []string{"evil.example.com"}, Key: "ec"},
+		{Prov: "nebula", NebHost: 0, Sub: "host-a.neb", NoSANs: true, Cnf: "bad", Key: "ec"},
+		// K8sSA
+		{Prov: "k8ssa", Sub: "builder", CN: "anything", DNS: []string{"any.example.com"}, IPs: []string{"10.9.9.9"}, Key: "ec"},
+		{Prov: "k8ssa", Sub: "builder", Key: "ec"},
 		{Prov: "jwk", Sub: "svc", SANs: []string{"a.example.com"}, BadSig: true, Key: "ec"},
 		{Prov: "jwk", Sub: "svc", SANs: []string{"a.example.com"}, Key: "rsa1024"},
 	}
